@@ -81,10 +81,23 @@ class C02(object):
             return {'kind': 'hostile', 'block': HOSTILE[h][0], 'why': HOSTILE[h][1],
                     'reduction': rng.random() < 0.5, 'cap': rng.choice([5, 50, 400, 2000]),
                     'tol': rng.choice([None, 1e-3, 1e-9])}
-        if r < 0.13:
+        if r < 0.11:
+            # a random contraction with one equation that can never be evaluated, at a random position
+            spec = G.gen_affine(rng, rho=rng.choice([0.2, 0.5]), tol=1e-8, maxtime=rng.randint(1, 4), aliases=False,
+                                decos=rng.random() < 0.5, ics=False)
+            x = spec['simul'][0]['name']
+            bad = rng.choice(['1/({x} - {x})', 'log10({x} - {x})', 'sqrt(-1 - {x}*{x})', '2.5/(0.0*{x})',
+                              'log(0*{x})']).format(x=x)
+            lines = G.render(spec).split('\n')
+            pos = rng.randint(0, max(0, len([l for l in lines if '=' in l and 'MaxTime' not in l]) - 1))
+            lines.insert(pos, 'bad_v = 0.5*%s + %s' % (x, bad))
+            lines.insert(rng.randint(0, pos), 'uses_bad = 0.25*bad_v + 1')
+            return {'kind': 'hostile', 'block': '\n'.join(lines), 'why': 'persistent evaluation error (%s) at a random position' % bad,
+                    'reduction': rng.random() < 0.5, 'cap': rng.choice([50, 400]), 'tol': None}
+        if r < 0.15:
             return {'kind': 'userfn', 'fn': rng.choice(['inf_after', 'nan']), 'n': rng.randint(0, 30),
                     'reduction': rng.random() < 0.5, 'cap': rng.choice([50, 400])}
-        if r < 0.18:
+        if r < 0.20:
             return {'kind': 'failpoint', 'n': rng.randint(1, 5), 'exc': rng.choice(['ZeroDivisionError', 'ValueError']),
                     'reduction': rng.random() < 0.5, 'tol': rng.choice([1e-6, 1e-9])}
         nonlinear = rng.random() < 0.3
